@@ -64,6 +64,19 @@ func runSearch(a map[string]string) {
 	if !bigR.ProbablyPrime(32) {
 		emit(viol{"group-order-not-prime", "bn256.Order fails Miller-Rabin", map[string]string{"Order": bigR.String()}})
 	}
+	// S6 object re-use, S7 concurrency (reuse.go)
+	{
+		e6, r6 := runReuse(g, hx.ArgInt(a, "reuse", 3), emit)
+		evals += e6
+		for k, v := range r6 {
+			results["reuse:"+k] += v
+		}
+		e7, r7 := runConcurrent(g, hx.ArgInt(a, "workers", 8), hx.ArgInt(a, "perworker", 6), hx.ArgInt(a, "loops", 3), emit)
+		evals += e7
+		for k, v := range r7 {
+			results["conc:"+k] += v
+		}
+	}
 	// S5 related messages, one process, every ordered pair, both temporal orders
 	for f := 0; f < 1+n/6; f++ {
 		sk := g.sk()
